@@ -202,6 +202,54 @@ pub fn j_range_fmt(fam: usize, v: [i64; 6], out: &mut Local) {
             let inv = t < 10 || t >= (ylen(y) + 1) * 10;
             ("%Y %J".to_string(), format!("{y:04} {}.{}", t.div_euclid(10), t.rem_euclid(10)), inv, false, "fractional-day-of-year")
         }
+        7 => {
+            // v = [format, field]: a '-' in front of one numeric field of an otherwise valid text. A negative month, day,
+            // day of year, hour, minute or second is out of range; a negative year is another year (judged below: the
+            // text must not be read as the positive year)
+            const F7: [(&str, &[&str]); 5] = [
+                ("%Y-%m-%dT%H:%M:%S", &["2017", "-", "01", "-", "14", "T", "05", ":", "10", ":", "20"]),
+                ("%Y-%m-%d %H:%M:%S", &["2017", "-", "01", "-", "14", " ", "05", ":", "10", ":", "20"]),
+                ("%d/%m/%Y %H:%M:%S", &["14", "/", "01", "/", "2017", " ", "05", ":", "10", ":", "20"]),
+                ("%Y-%jT%H:%M:%S", &["2017", "-", "060", "T", "05", ":", "10", ":", "20"]),
+                ("%Y-%m-%d", &["2017", "-", "01", "-", "14"]),
+            ];
+            let (f, parts) = F7[v[0] as usize];
+            let k = (v[1] as usize) * 2;
+            let mut text = String::new();
+            for (i, p) in parts.iter().enumerate() {
+                if i == k {
+                    text.push('-');
+                }
+                text.push_str(p);
+            }
+            let tok: Vec<&str> = f.split('%').skip(1).collect();
+            let which = match tok[v[1] as usize].chars().next().unwrap() {
+                'Y' => "sign-of-the-year-dropped",
+                'm' => "negative-month",
+                'd' => "negative-day",
+                'j' => "negative-day-of-year",
+                'H' => "negative-hour",
+                'M' => "negative-minute",
+                _ => "negative-second",
+            };
+            (f.to_string(), text, true, false, which)
+        }
+        8 => {
+            // v = [format, month, day]: a month / day field next to a day of year, or given twice, or next to a month name:
+            // the parser keeps one of them; the other one must still be in range
+            let (mo, d) = (v[1], v[2]);
+            // next to a day of year the (month, day) pair is one date and must exist; when a field is given twice or
+            // overridden by a name only each field's own range is judged (which pair forms "the date" is not defined)
+            let field = mo < 1 || mo > 12 || d < 1 || d > 31;
+            let inv = if v[0] < 2 { field || d > crate::oracle::civil::month_len(2017, mo) } else { field };
+            let (f, text) = match v[0] {
+                0 => ("%Y-%m-%d %j", format!("2017-{mo:02}-{d:02} 060")),
+                1 => ("%j %Y-%m-%d", format!("060 2017-{mo:02}-{d:02}")),
+                2 => ("%d %d %m %Y", format!("{d:02} 15 {mo:02} 2017")),
+                _ => ("%m %b %d %Y", format!("{mo:02} Mar {d:02} 2017")),
+            };
+            (f.to_string(), text, inv, false, if mo < 1 || mo > 12 { "month" } else { "day" })
+        }
         _ => {
             // v = [year, day of year, hour, minute, second]: ordinal date with a time of day (27 April / 31 December are
             // not leap-second days in these years)
@@ -211,8 +259,16 @@ pub fn j_range_fmt(fam: usize, v: [i64; 6], out: &mut Local) {
         }
     };
     let args: Vec<String> = std::iter::once(fam.to_string()).chain(v.iter().map(|x| x.to_string())).collect();
-    let r = guard(|| if fmt == "RFC3339" { RFC3339.parse(&text).is_ok() } else { Epoch::from_format_str(&text, &fmt).is_ok() });
-    let fam_name = ["rfc3339-with-trailing-character", "custom-format-with-trailing-character", "custom-format-with-trailing-character", "rfc3339-offset", "ordinal", "fractional-ordinal", "ordinal-with-time"][fam];
+    let r = guard(|| {
+        let e = if fmt == "RFC3339" { RFC3339.parse(&text).ok() } else { Epoch::from_format_str(&text, &fmt).ok() };
+        match e {
+            // a sign in front of the year: reading the year as negative is a correct answer
+            Some(e) if which == "sign-of-the-year-dropped" => e.to_gregorian_utc().0 > 0,
+            Some(_) => true,
+            None => false,
+        }
+    });
+    let fam_name = ["rfc3339-with-trailing-character", "custom-format-with-trailing-character", "custom-format-with-trailing-character", "rfc3339-offset", "ordinal", "fractional-ordinal", "ordinal-with-time", "sign-in-front-of-a-field", "field-given-twice-or-overridden"][fam.min(8)];
     match r {
         Ok(acc) => {
             if invalid && acc {
@@ -409,7 +465,7 @@ pub fn corpus(p: usize, double: bool, double_max_len: usize) -> Vec<String> {
 
 pub fn run(rep: &mut Report) {
     let q = rep.quick();
-    rep.rule = "per parser: every string of up to L symbols over an alphabet built from the characters the parser compares against plus 2-, 3- and 4-byte characters and non-ASCII digits (L = 4 quick, 5 thorough); a grammar-derived seed corpus closed under all single-point mutations (delete, truncate, substitute, insert over the alphabet), under double-point mutations (quick: seeds <= 16 chars; thorough: <= 40), and with numeric extremes spliced into every numeric field; for the two-argument entry points the product of mutated formats and mutated inputs, and structured pairs: every format of 1-2 tokens x 57 separator strings, every 3-token format and formats of 14..17 tokens, each against the real formatter's own output and five field-count variants of it (one field more, one character less, half, padded). Second clause: well-formed text from the full product of boundary field values must be rejected when a field is out of range. Oracle: the call returns Ok or Err (panics are caught under overflow checks; a watchdog bounds the time). Non-trivial = non-ASCII or longer than 6 bytes.".into();
+    rep.rule = "per parser: every string of up to L symbols over an alphabet built from the characters the parser compares against plus 2-, 3- and 4-byte characters and non-ASCII digits (L = 4 quick, 5 thorough); a grammar-derived seed corpus closed under all single-point mutations (delete, truncate, substitute, insert over the alphabet), under double-point mutations (quick: seeds <= 16 chars; thorough: <= 40), and with numeric extremes spliced into every numeric field; for the two-argument entry points the product of mutated formats and mutated inputs, and structured pairs: every format of 1-2 tokens x 57 separator strings, every 3-token format and formats of 14..17 tokens, each against the real formatter's own output and five field-count variants of it (one field more, one character less, half, padded). Second clause: well-formed text from the full product of boundary field values must be rejected when a field is out of range - through Epoch::from_str / from_gregorian_str and, through Format::parse, for calendar text with a trailing character, RFC 3339 offsets, ordinal dates with and without a time of day, a sign in front of every numeric field, and month / day fields overridden by a day of year, a repetition or a month name. Oracle: the call returns Ok or Err (panics are caught under overflow checks; a watchdog bounds the time). Non-trivial = non-ASCII or longer than 6 bytes.".into();
     rep.assumptions = vec!["arbitrary UTF-8 is approximated by the alphabets and mutation operators described; see DESIGN.md §8".into()];
     let l = if q { 4 } else { 5 };
     rep.bound("max_len_all_strings", l as u64);
@@ -567,6 +623,18 @@ pub fn run(rep: &mut Report) {
         }
         for t in [-5i64, 0, 5, 9, 10, 15, 3650, 3655, 3659, 3660, 3665, 3669, 3670, 4000, 99_999] {
             rf.push((5, [y, t, 0, 0, 0, 0]));
+        }
+    }
+    for (f, nf) in [6i64, 6, 6, 5, 3].into_iter().enumerate() {
+        for k in 0..nf {
+            rf.push((7, [f as i64, k, 0, 0, 0, 0]));
+        }
+    }
+    for f in 0..4i64 {
+        for mo in [0i64, 1, 2, 3, 12, 13, 99] {
+            for d in [0i64, 1, 28, 29, 30, 31, 32, 99] {
+                rf.push((8, [f, mo, d, 0, 0, 0]));
+            }
         }
     }
     rep.bound("range_through_format_parse", rf.len() as u64);
